@@ -95,7 +95,7 @@ pub struct Txn { pub open: bool, pub marks_written: bool, pub commits: nat, pub 
         let ghost mut txn = Txn { open: false, marks_written: false, commits: 0, rollbacks: 0 };
 //@ insert after-stmt "conn.execute(\"BEGIN TRANSACTION\", [])"
         proof { txn = Txn { open: true, ..txn }; }
-//@ insert-each after-stmt "conn.execute(\"ROLLBACK\", [])?;"
+//@ insert-each after-stmt "conn.execute(\"ROLLBACK\", [])"
                         proof { txn = Txn { open: false, rollbacks: txn.rollbacks + 1, ..txn }; }
 //@ insert-each before-stmt "return Err(e);"
                         // [no_open_transaction_on_error_return] every error return happens after the transaction was rolled back
